@@ -210,6 +210,11 @@ func calleeName(cc *ssa.CallCommon) string {
 
 func (t *Tr) call(instr ssa.Instruction, cc *ssa.CallCommon, pos token.Pos) *Val {
 	if b, ok := cc.Value.(*ssa.Builtin); ok {
+		if b.Name() == "append" || b.Name() == "copy" || b.Name() == "delete" {
+			bn := calleeName(cc)
+			t.callOrd[bn]++
+			t.callSiteClauses(bn, t.callOrd[bn], cc, pos)
+		}
 		return t.builtin(instr, b, cc, pos)
 	}
 	name := calleeName(cc)
@@ -284,21 +289,6 @@ func (t *Tr) callInner(instr ssa.Instruction, cc *ssa.CallCommon, pos token.Pos,
 		for i := 0; i < sig.Params().Len(); i++ {
 			pnames = append(pnames, sig.Params().At(i).Name())
 			ptypes = append(ptypes, sig.Params().At(i).Type())
-		}
-		if ct == nil {
-			// unique module implementation with a contract?
-			impls, lib := t.ms.staticCallees(cc)
-			if len(impls) == 1 && !lib {
-				if c2 := t.sp.Contracts[funcKey(impls[0])]; c2 != nil {
-					ct = c2
-					pnames = nil
-					ptypes = nil
-					for _, p := range impls[0].Params {
-						pnames = append(pnames, p.Name())
-						ptypes = append(ptypes, p.Type())
-					}
-				}
-			}
 		}
 	} else if callee != nil && inModule(callee) {
 		ct = t.sp.Contracts[funcKey(callee)]
@@ -934,6 +924,13 @@ func (t *Tr) callSiteClauses(name string, ord int, cc *ssa.CallCommon, pos token
 			continue
 		}
 		txt := strings.TrimSpace(strings.TrimPrefix(strings.TrimSpace(strings.TrimPrefix(cl.Text, f[0])), "requires"))
+		label := ""
+		if strings.HasPrefix(txt, "[") {
+			if j := strings.Index(txt, "]"); j > 0 && !strings.ContainsAny(txt[1:j], " ()") {
+				label = txt[1:j]
+				txt = strings.TrimSpace(txt[j+1:])
+			}
+		}
 		e, err := parseSpecExpr(txt)
 		if err != nil {
 			t.unsup("call clause (%s:%d): %v", cl.File, cl.Line, err)
@@ -945,7 +942,11 @@ func (t *Tr) callSiteClauses(name string, ord int, cc *ssa.CallCommon, pos token
 			t.unsup("call clause (%s:%d): %v", cl.File, cl.Line, err)
 			continue
 		}
-		t.addObl("call", shortCallee(name), pos, t.reach[t.curBlk], g, "at call of "+name+": "+txt)
+		sfx := shortCallee(name)
+		if label != "" {
+			sfx += "." + label
+		}
+		t.addObl("call", sfx, pos, t.reach[t.curBlk], g, "at call of "+name+": "+txt)
 	}
 }
 
